@@ -10,7 +10,8 @@ var debugExplore = os.Getenv("VERIF_DEBUG_EXPLORE") != ""
 
 // Cache is the visited-state table of one exploration.
 type Cache struct {
-	m hset
+	m    hset
+	Full bool // the cache reached cacheMaxStates: later states were explored without being stored
 }
 
 func NewCache() *Cache { return &Cache{} }
@@ -25,12 +26,24 @@ func (c *Cache) visit(k H, spent int, unbounded bool) bool {
 	if spent > 250 {
 		spent = 250
 	}
-	if s, ok := c.m.lookup(uint64(k)); ok && int(s) <= spent {
+	s, ok := c.m.lookup(uint64(k))
+	if ok && int(s) <= spent {
 		return false
+	}
+	if !ok && c.m.n >= cacheMaxStates {
+		// full: the state is explored but not remembered (sound: nothing is pruned because of
+		// it; a later arrival is explored again). Sixteen workers with unbounded caches
+		// exhausted the machine's memory in the thorough tier.
+		c.Full = true
+		return true
 	}
 	c.m.store(uint64(k), uint8(spent))
 	return true
 }
+
+// cacheMaxStates bounds a worker's state cache (20 bytes per state at load 1/2, three times
+// that while the table is rebuilt: about 1 GB).
+const cacheMaxStates = 1<<25 - 1
 
 func (c *Cache) Len() int { return c.m.n }
 
